@@ -1,4 +1,5 @@
 import Ldlm.Proofs.CoreLease
+import Ldlm.Proofs.CoreRestart
 import Ldlm.Props.C07
 import Ldlm.Generated.Facts
 /-!
@@ -52,12 +53,11 @@ theorem lease_not_early (ho : o.Lawful) (hinj : KeysInjective c) {s : St M} (h :
 
 /-- … and the hold the lease belongs to is still held then -/
 theorem lease_not_early_held (ho : o.Lawful) (hinj : KeysInjective c)
-    (hr : ∀ s : St M, Inv' o c s → Inv' o c (restart o c s).1)
-    {s : St M} (h : Inv' o c s) (dt : Nat)
+    {s : St M} (h : InvS o c s) (dt : Nat)
     (tk : Str) (tm : Timer) (hg : AMap.get s.timers tk = some tm) (hd : s.now + dt < tm.deadline) :
     held o (step o c s (.advance dt)).1 tm.name tm.key := by
-  have h' := step_inv ho hinj hr h (.advance dt)
-  have hg' := lease_not_early ho hinj h dt tk tm hg hd
+  have h' := (step_invS ho hinj h (.advance dt)).1
+  have hg' := lease_not_early ho hinj h.1 dt tk tm hg hd
   rcases (h'.timer tk tm (AMap.get_some_mem _ _ _ hg')).2 with hh | hx
   · exact hh
   · cases hx
